@@ -2,7 +2,10 @@
 (* Trace validation for C09: every line is one experiment on the real library - a history of
    record classes, then a probe; `same` says whether the probe's bytes equal the bytes the same
    probe produces on a fresh pool.  The model replays the history through After() and predicts
-   whether the probe can see anything of it.                                                      *)
+   whether the probe can see anything of it.  `env` is the process environment the worker found
+   itself in ("flat" | "nested": $HOME and the start directory nested above the probes' call site);
+   the reference bytes come from another process in the SAME environment, so where the model says
+   the call has one observation (FileForms) the bytes must agree there too.                       *)
 EXTENDS PoolResidual, Json, SequencesExt
 
 CONSTANT TraceFile
@@ -19,17 +22,19 @@ ClassOf(id) == [fmt |-> FmtOf(id), col |-> ColOf(id), ml |-> (id % 100 = 1), ga 
 RECURSIVE Replay(_, _)
 Replay(r, h) == IF h = <<>> THEN r ELSE Replay(After(r, ClassOf(Head(h))), Tail(h))
 
-TInit == res = Fresh /\ hist = <<>> /\ i = 1 /\ bad = {} /\ reusedCount = 0
+TInit == res = Fresh /\ hist = <<>> /\ env = "flat" /\ i = 1 /\ bad = {} /\ reusedCount = 0
 TNext ==
     /\ i <= Len(TLog)
     /\ i' = i + 1
     /\ LET e == TLog[i]
            r == Replay(Fresh, e.history)
-           indep == Seen(r, ClassOf(e.probe)) = Seen(Fresh, ClassOf(e.probe))
-       IN /\ res' = r /\ hist' = <<>>
+           ev == IF "env" \in DOMAIN e THEN e.env ELSE "flat"
+           indep == /\ Obs(r, ClassOf(e.probe), ev) = Obs(Fresh, ClassOf(e.probe), ev)
+                    /\ Cardinality(Obs(r, ClassOf(e.probe), ev)) = 1
+       IN /\ res' = r /\ hist' = <<>> /\ env' = ev
           /\ reusedCount' = reusedCount + (IF e.reused THEN 1 ELSE 0)
           \* the model (for the tree's ResetBySet) says the probe cannot see the history: bytes must agree
-          /\ bad' = IF indep /\ ~e.same THEN bad \cup {[line |-> i, b |-> e.b]} ELSE bad
-TSpec == TInit /\ [][TNext]_<<res, hist, i, bad, reusedCount>>
+          /\ bad' = IF indep /\ ~e.same THEN bad \cup {[line |-> i, b |-> e.b, env |-> ev]} ELSE bad
+TSpec == TInit /\ [][TNext]_<<res, hist, env, i, bad, reusedCount>>
 Done == i <= Len(TLog) \/ PrintT("@@bad " \o ToJson([bad |-> SetToSeq(bad), reused |-> reusedCount])) \/ TRUE
 =============================================================================
